@@ -401,6 +401,14 @@ impl<'a, T: Evaluate> PiecewiseEvaluator<'a, T> {
         // point traversing anything earlier. If the value is lower, a
         // previous segment might have been better suited so we try
         // and find the crossing point segment.
+
+        // NaN compares false with everything, so direct evaluation falls
+        // through to the last segment. Answer the same way without touching
+        // the cursor or the remembered argument: later queries are unaffected.
+        if x.is_nan() {
+            return self.last.evaluate(x);
+        }
+
         let seg = if x >= self.last_evaluation {
             // Happy path, we're going forward.
             loop {
